@@ -98,15 +98,20 @@ fn build_start(kind: Kind, start: StepStart) -> (Content, Model) {
     let a_overwritten = |c: &mut Content| {
         let j = journal_of(kind, &[Op::Put { k: 0, v: 1 }, Op::Put { k: 0, v: 2 }]);
         apply_all(c, &j[0]);
-        let (last, rest) = j[1].split_last().expect("journal");
-        assert!(matches!(last, Mutation::Delete { path } if path.starts_with("gen/a/")), "setup: {last:?}");
-        apply_all(c, rest);
+        for m in &j[1] {
+            if !matches!(m, Mutation::Delete { path } if path.starts_with("gen/")) {
+                ctlstore::apply(c, m);
+            }
+        }
     };
     // an uncommitted generation under key k (payload written, pointer never switched)
     let uncommitted = |c: &mut Content, k: u8| {
         let j = journal_of(kind, &[Op::Put { k, v: 4 }]);
-        assert!(matches!(&j[0][0], Mutation::Put { path, .. } if path.starts_with("gen/")), "setup");
-        apply_all(c, &j[0][..1]);
+        for m in &j[0] {
+            if matches!(m, Mutation::Put { path, .. } if path.starts_with("gen/")) {
+                ctlstore::apply(c, m);
+            }
+        }
     };
     let b_committed = |c: &mut Content| {
         let j = journal_of(kind, &[Op::Put { k: 1, v: 3 }]);
@@ -138,7 +143,9 @@ fn build_start(kind: Kind, start: StepStart) -> (Content, Model) {
             m[1] = Some(value(3));
         }
     }
-    assert!(!unreferenced_payloads(&c).is_empty(), "start state must contain garbage");
+    if unreferenced_payloads(&c).len() < 2 {
+        vcore::report::machinery("STEP start state does not contain the intended garbage");
+    }
     (c, m)
 }
 
@@ -382,6 +389,7 @@ fn run_one(sc: &Scenario, start: &(Content, Model), ch: &mut Chooser, keep_label
     // --- walk the journal: what did the collector delete, what did commits reference
     let journal = ctl.journal();
     let mut content = start.0.clone();
+    let mut dangling_reported = false;
     for e in &journal {
         if e.task == 0 {
             if let Mutation::Delete { path } = &e.mutation {
@@ -405,15 +413,22 @@ fn run_one(sc: &Scenario, start: &(Content, Model), ch: &mut Chooser, keep_label
             }
         }
         ctlstore::apply(&mut content, &e.mutation);
-        if let Mutation::Put { path, .. } = &e.mutation
-            && path.starts_with("meta/")
-            && let Some(p) = referenced_payloads(&content).get(path)
-            && !content.contains_key(p)
-        {
-            ex.problems.push((
-                "commit-references-missing-payload".into(),
-                format!("task {} committed {path} -> {p}, which is not in the store", e.task),
-            ));
+        // invariant at every instant (= at every possible crash point of the
+        // interleaved execution): each commit point's payload is in the store
+        if !dangling_reported {
+            for (meta, p) in referenced_payloads(&content) {
+                if !content.contains_key(&p) {
+                    dangling_reported = true;
+                    ex.problems.push((
+                        "commit-references-missing-payload".into(),
+                        format!(
+                            "after task {}'s {}: {meta} -> {p}, which is not in the store",
+                            e.task,
+                            e.mutation.label()
+                        ),
+                    ));
+                }
+            }
         }
     }
     if content != ctlstore::snapshot(&inner) {
@@ -538,12 +553,10 @@ fn writer_ops(slot: usize) -> Vec<Op> {
     ]
 }
 
-fn scenarios(thorough: bool) -> Vec<(Scenario, u32)> {
+fn scenarios(thorough: bool, b1: u32, b2: u32) -> Vec<(Scenario, u32)> {
     // (scenario, preemption bound); ordered small -> large (par_map pops from the end)
     let mut singles = Vec::new();
     let mut pairs = Vec::new();
-    let b1 = if thorough { 3 } else { 2 };
-    let b2 = 2;
     for kind in [Kind::Meta, Kind::Enc] {
         for start in [StepStart::Both, StepStart::BAbsent, StepStart::LegacyA] {
             for frozen_clock in [false, true] {
@@ -705,6 +718,22 @@ fn explore_scenario(sc: Scenario, bound: u32, deadline: Instant) -> ScOut {
     o
 }
 
+#[derive(Default)]
+struct Pass {
+    bounds: (u32, u32),
+    n_scenarios: usize,
+    execs: u64,
+    steps: u64,
+    gc_deleted_execs: u64,
+    older: u64,
+    younger: u64,
+    notes: u64,
+    distinct: BTreeSet<u64>,
+    samples: Vec<Value>,
+    capped: Vec<String>,
+    violations: Vec<Violation>,
+}
+
 fn main() {
     let mut run = Run::from_args("C08", "step", "fault_enumeration");
 
@@ -737,61 +766,108 @@ fn main() {
 
     let thorough = run.tier == vcore::Tier::Thorough;
     let deadline = Instant::now() + Duration::from_secs_f64(run.remaining_s());
-    let scs = scenarios(thorough);
-    let n_scenarios = scs.len();
-    // largest last: par_map pops from the end
-    let outs = util::par_map(scs, util::n_threads(), |(sc, bound)| explore_scenario(sc, bound, deadline));
-
-    let mut capped: Vec<String> = Vec::new();
-    let mut min_bound_single: Option<u32> = None;
-    let mut min_bound_pair: Option<u32> = None;
-    let mut samples: Vec<Value> = Vec::new();
-    for o in outs {
-        if let Some(m) = &o.machinery {
-            vcore::report::machinery(m);
-        }
-        run.add("evaluations", o.execs);
-        run.add("executions", o.execs);
-        run.add("scheduling_steps", o.steps);
-        run.add("executions_where_gc_reclaimed_something", o.gc_deleted_execs);
-        run.add("executions_writer_generation_older_than_gc_floor", o.older);
-        run.add("executions_writer_generation_at_or_after_gc_floor", o.younger);
-        run.add("gc_error_notes", o.notes);
-        run.add("distinct_backend_call_sequences", o.label_seqs.len() as u64);
-        for h in &o.label_seqs {
-            run.distinct(util::fnv64(format!("{}/{h}", o.sc.name()).as_bytes()));
-        }
-        let done = o.stats.completed_bound;
-        let slot = if o.sc.writers.len() == 1 { &mut min_bound_single } else { &mut min_bound_pair };
-        let d = done.unwrap_or(0);
-        *slot = Some(slot.map_or(d, |x| x.min(d)));
-        if o.stats.capped || done != Some(o.bound) {
-            if o.violations.is_empty() {
-                capped.push(format!("{} (bound {:?} of {})", o.sc.name(), done, o.bound));
+    // passes of (bound for one writer, bound for two writers); a later pass
+    // re-explores everything at a higher bound and replaces the earlier
+    // numbers only when it completes
+    let passes: Vec<(u32, u32)> = if thorough { vec![(3, 2), (4, 3)] } else { vec![(2, 2)] };
+    let mut committed: Option<Pass> = None;
+    for (pi, (b1, b2)) in passes.iter().enumerate() {
+        if pi > 0 {
+            // a pass at bound+1 costs roughly 12x the previous one
+            let spent = run.elapsed();
+            if spent * 13.0 > run.budget_s {
+                run.cap_hit(&format!(
+                    "time budget: pass with preemption bounds {b1} (one writer) / {b2} (two writers) not attempted"
+                ));
+                break;
             }
         }
-        if let Some(s) = o.sample
-            && samples.len() < 40
-        {
-            samples.push(s);
+        let scs = scenarios(thorough, *b1, *b2);
+        let n_scenarios = scs.len();
+        // largest last: par_map pops from the end
+        let outs = util::par_map(scs, util::n_threads(), |(sc, bound)| explore_scenario(sc, bound, deadline));
+        let mut pass = Pass {
+            bounds: (*b1, *b2),
+            n_scenarios,
+            ..Default::default()
+        };
+        for o in outs {
+            if let Some(m) = &o.machinery {
+                vcore::report::machinery(m);
+            }
+            pass.execs += o.execs;
+            pass.steps += o.steps;
+            pass.gc_deleted_execs += o.gc_deleted_execs;
+            pass.older += o.older;
+            pass.younger += o.younger;
+            pass.notes += o.notes;
+            for h in &o.label_seqs {
+                pass.distinct.insert(util::fnv64(format!("{}/{h}", o.sc.name()).as_bytes()));
+            }
+            let done = o.stats.completed_bound;
+            if (o.stats.capped || done != Some(o.bound)) && o.violations.is_empty() {
+                pass.capped.push(format!("{} (bound {:?} of {})", o.sc.name(), done, o.bound));
+            }
+            if let Some(s) = o.sample
+                && pass.samples.len() < 40
+            {
+                pass.samples.push(s);
+            }
+            pass.violations.extend(o.violations);
         }
-        for v in o.violations {
+        eprintln!(
+            "pass bounds {b1}/{b2}: {} executions, {} capped scenarios, {} violations at {:.1}s",
+            pass.execs,
+            pass.capped.len(),
+            pass.violations.len(),
+            run.elapsed()
+        );
+        let complete = pass.capped.is_empty();
+        let has_violation = !pass.violations.is_empty();
+        for v in std::mem::take(&mut pass.violations) {
             run.violation(v);
         }
+        if complete || committed.is_none() {
+            committed = Some(pass);
+        } else {
+            run.cap_hit(&format!(
+                "time budget: pass with preemption bounds {b1}/{b2} stopped after {} executions ({} scenarios unfinished); its numbers are not included",
+                pass.execs,
+                pass.capped.len()
+            ));
+            run.add("executions_in_unfinished_higher_bound_pass", pass.execs);
+        }
+        if has_violation {
+            break;
+        }
     }
-    samples.sort_by_key(|s| s.to_string());
+    let mut pass = committed.expect("at least one pass");
+    run.add("evaluations", pass.execs);
+    run.add("executions", pass.execs);
+    run.add("scheduling_steps", pass.steps);
+    run.add("executions_where_gc_reclaimed_something", pass.gc_deleted_execs);
+    run.add("executions_writer_generation_older_than_gc_floor", pass.older);
+    run.add("executions_writer_generation_at_or_after_gc_floor", pass.younger);
+    run.add("gc_error_notes", pass.notes);
+    for d in &pass.distinct {
+        run.distinct(*d);
+    }
+    pass.samples.sort_by_key(|s| s.to_string());
     // a spread of written-out cases: every 7th of the sorted list
-    for s in samples.iter().step_by(7) {
+    for s in pass.samples.iter().step_by(7) {
         run.sample(s.clone());
     }
-    run.set("scenarios", json!(n_scenarios));
-    run.set("preemption_bound_completed_single_writer", json!(min_bound_single));
-    run.set("preemption_bound_completed_two_writers", json!(min_bound_pair));
-    if !capped.is_empty() {
+    run.set("scenarios", json!(pass.n_scenarios));
+    if pass.capped.is_empty() {
+        run.set("preemption_bound_completed_single_writer", json!(pass.bounds.0));
+        run.set("preemption_bound_completed_two_writers", json!(pass.bounds.1));
+    } else {
         run.cap_hit(&format!(
-            "time budget: {} scenario(s) not explored to their bound, e.g. {}",
-            capped.len(),
-            capped.iter().take(3).cloned().collect::<Vec<_>>().join("; ")
+            "time budget: {} scenario(s) not explored to their bound ({}/{}), e.g. {}",
+            pass.capped.len(),
+            pass.bounds.0,
+            pass.bounds.1,
+            pass.capped.iter().take(3).cloned().collect::<Vec<_>>().join("; ")
         ));
     }
     run.rule(
@@ -799,7 +875,7 @@ fn main() {
          writers {one of put/multipart-complete/copy/delete/rename on either key; or two of them (same and different keys)} x \
          {writers through the collector's instance; writers through a second instance first polled after the collector captured its floor}; \
          per scenario every schedule of collect_garbage || writers at inner-store-call granularity up to the preemption bound \
-         (one evaluation = one execution on the real code, judged by: no collector delete of a referenced payload, no commit of a pointer to a missing payload, \
+         (one evaluation = one execution on the real code, judged by: no collector delete of a referenced payload, after every single inner-store mutation every commit point's payload exists (= every crash point of the interleaved run), \
          live and cold instances read the same complete values, final state explained by an order of the operations' commit steps consistent with return order, \
          a further quiescent collection changes nothing); distinct non-trivial = distinct sequences of backend calls (generation ids renamed by first appearance) per scenario",
     );
